@@ -883,6 +883,16 @@ func famDefsOf(t *btapb.Table) []FamDef {
 	return fs
 }
 
+// ExecFast: no hang watchdog (for high-volume enumerations)
+func (e *Emu) ExecFast(c Call) (out Resp) {
+	defer func() {
+		if p := recover(); p != nil {
+			out = Resp{Code: 99, Kind: "none", Panic: fmt.Sprint(p)}
+		}
+	}()
+	return e.exec(c)
+}
+
 func (e *Emu) Exec(c Call) (out Resp) {
 	defer func() {
 		if p := recover(); p != nil {
